@@ -50,6 +50,28 @@ def key_of(prog, mir):
     return "C05/types:" + ",".join(sorted(shapes)) if shapes else "C05/edge"
 
 
+ELEMENT_KIND = {"secret-array": "secret", "public-array": "public", "pairs": "pair"}
+
+
+def key_of_api_call(call):
+    """which open finding an accepted public-API call belongs to, decided from the CALL (receiver, method, argument kinds),
+    not from how its MIR fails; None for everything else (its own key)"""
+    import re
+    m = re.match(r"([\w-]+)\.(map|reduce)\(([^)]*)\)$", call)
+    if not m:
+        return None
+    rk, meth, args = m.group(1), m.group(2), [a.strip() for a in m.group(3).split(",") if a.strip()]
+    if not args or args[0] not in ("fn1", "fn2"):
+        return None
+    arity = 1 if args[0] == "fn1" else 2
+    if arity != (1 if meth == "map" else 2):
+        return "C05/api:map-or-reduce-function-of-another-arity"
+    # fn1 / fn2 take SecretInteger parameters: another element kind or another seed kind is the unchecked-argument finding
+    if ELEMENT_KIND.get(rk) != "secret" or (meth == "reduce" and args[1:] != ["secret"]):
+        return "C05/edge:call-argument-type-differs-from-parameter"
+    return None
+
+
 def run(ctx):
     ok_x = vlib.step_extract(ctx)
     ok_p = vlib.step_prove(ctx) if ok_x else False
@@ -66,6 +88,7 @@ def run(ctx):
                          lambda name, prog, res: ("C05/edge:plain-number-seed", "a type recorded in the MIR is inconsistent along an edge (Spec/MirSpec.v C05b)"),
                          mp.plain_reduce_seed_programs(), "plain-number-as-reduce-seed",
                          "xs.reduce(f, 0) with a plain Python number as the initial value", "plain_seed")
+    mp.api_probe_case(ctx, {"C05b": mp.on_mir("C05b")}, "C05", "public API probe", key_of_api_call)
     if ok_x:
         dis = mp.tie_model(ctx, progs, results)
         if dis is not None:
